@@ -1,0 +1,24 @@
+// Tencent is pleased to support the open source community by making trpc-mcp-go available.
+//
+// Copyright (C) 2025 Tencent.  All rights reserved.
+//
+// trpc-mcp-go is licensed under the Apache License Version 2.0.
+
+package mcp
+
+import "fmt"
+
+// encodingErrorResponse builds the JSON-RPC internal error that is sent in place of a response
+// whose result cannot be encoded as JSON (for example a NaN or a channel in structured content).
+func encodingErrorResponse(resp interface{}, err error) *JSONRPCError {
+	var id interface{}
+	switch r := resp.(type) {
+	case JSONRPCResponse:
+		id = r.ID
+	case *JSONRPCResponse:
+		if r != nil {
+			id = r.ID
+		}
+	}
+	return newJSONRPCErrorResponse(id, ErrCodeInternal, fmt.Sprintf("failed to encode result: %v", err), nil)
+}
